@@ -10,6 +10,7 @@ parse : decimal texts go through Values.from_repr (the anchored observation poin
         INPUT# (file) and READ/DATA; the stored bytes are read back with MKD$/MKS$ and compared with
         the exact decimal rational.
 """
+import os
 import random
 import struct
 from fractions import Fraction
@@ -56,6 +57,8 @@ TECHNIQUE = ("seeded bulk enumeration + Hypothesis strategies vs. exact-rational
 
 MAXSIG = {4: 7, 8: 16}
 TWO56 = 1 << 56
+# Overflow is accepted from one ulp below the largest single upwards (rounding may carry out)
+OVERFLOW_FROM = mbf.MAXVAL[4] * (1 - Fraction(1, 2 ** 23))
 
 
 # --------------------------------------------------------------------------------------------
@@ -162,16 +165,12 @@ def in_allnines_region(b):
     return dectext.floor_units(exact, 15 - k) == 10 ** 16 - 1
 
 
-def fail_known(res, key, msg, strict):
+def fail_known(res, key, msg, strict=True):
     """
-    A failure inside the region of a recorded finding: reported under the finding's own key by the
-    directed ('strict') regression cases only; generated cases count it as excluded and go on.
+    A failure inside the region of a (now fixed) finding keeps that finding's own bucket key, so a
+    regression of one of those fixes is reported under its name; nothing is excluded any more.
     """
-    if strict:
-        res.fail(key, msg)
-    else:
-        res.excluded += 1
-        res.label('excluded:' + key)
+    res.fail(key, msg)
 
 
 def judge_shown(res, text, b, route, strict=False):
@@ -235,14 +234,28 @@ _SH = {}
 def _shared():
     """A shared session for routes without side effects (evaluate only)."""
     s = _SH.get('s')
+    if s is not None and _SH.get('pid') != os.getpid():
+        # inherited through fork from the parent: never share (or close) another process's sandbox
+        s = None
     if s is None or _SH['n'] > 3000:
         if s is not None:
             s.close()
+        _SH['pid'] = os.getpid()
         s = harness.Sess()
         _SH['s'] = s
         _SH['n'] = 0
     _SH['n'] += 1
     return s
+
+
+def _sandbox():
+    """One scratch directory per process for the route checks (every file is rewritten per case)."""
+    sb = _SH.get('sb')
+    if sb is None or _SH.get('sbpid') != os.getpid():
+        sb = harness.Sandbox()
+        _SH['sb'] = sb
+        _SH['sbpid'] = os.getpid()
+    return sb
 
 
 CV = {2: b'CVI', 4: b'CVS', 8: b'CVD'}
@@ -281,7 +294,7 @@ def check_print_batch(case, res):
     """case['vals'] = list of hex patterns; all routes in one fresh session."""
     vals = [bytes.fromhex(h) for h in case['vals']]
     strict = case.get('strict', False)
-    with harness.Sess() as s:
+    with harness.Sess(sandbox=_sandbox()) as s:
         # PRINT# and WRITE# to a file, PRINT to the (cleared) screen
         o = s.execute(b'OPEN "O",1,"F"')
         if o.kind != 'ok' or o.errors:
@@ -602,7 +615,7 @@ def check_parse_repr(case, res):
     # soft overflow messages land on the shared session's screen; nothing to clean up
     for typ, b in out:
         if typ == 'err':
-            if not (abs(d.value) >= mbf.MAXVAL[4] and b == 6):
+            if not (abs(d.value) >= OVERFLOW_FROM and b == 6):
                 res.fail('parse.error', 'from_repr(%r) raises error %r' % (text, b))
             else:
                 res.label('parse.over-range')
@@ -625,7 +638,7 @@ def _expect_quiet(res, route, text, o, d):
         res.fail('escaped.%s@%s' % (o.exc, o.frame), '%s %r -> %r' % (route, text, o))
         return False
     if o.errors:
-        if o.err == 6 and abs(d.value) >= mbf.MAXVAL[4]:
+        if o.err == 6 and abs(d.value) >= OVERFLOW_FROM:
             res.label('parse.over-range')
             return False
         res.fail('parse.error', '%s %r -> %r' % (route, text, o))
@@ -647,7 +660,7 @@ def check_parse_routes(case, res):
     mk = b'MKS$(X!)' if var == '!' else b'MKD$(X#)'
     x = b'X' + var.encode()
     blanks = ' ' in text
-    with harness.Sess() as s:
+    with harness.Sess(sandbox=_sandbox()) as s:
         def stored(route):
             o = s.evaluate(mk)
             if o.kind != 'ok' or o.errors or not isinstance(o.value, bytes):
@@ -758,7 +771,7 @@ def _rand_pattern(rng, n):
 
 def run_print_bulk(shard, nshards, tier, seed, ev):
     rng = random.Random(seed)
-    count = 3000 if tier == 'quick' else 250000
+    count = 4000 if tier == 'quick' else 250000
     nt = 0
     done = 0
     seen = set()
@@ -824,7 +837,7 @@ def strat_print_batch():
 
 def run_parse_bulk(shard, nshards, tier, seed, ev):
     rng = random.Random(seed)
-    count = 3000 if tier == 'quick' else 250000
+    count = 4000 if tier == 'quick' else 250000
     nt = 0
     done = 0
     seen = set()
@@ -858,12 +871,12 @@ def strat_parse_routes():
 
 def units(tier):
     return [
-        Unit('print-str', 'bulk', shards=16, run=run_print_bulk),
-        Unit('print-enum', 'enum', shards=16, gen=gen_print_enum),
-        Unit('print-routes', 'hyp', shards=16, examples={'quick': 40, 'thorough': 4000},
+        Unit('print-str', 'bulk', shards={'quick': 8, 'thorough': 16}, run=run_print_bulk),
+        Unit('print-enum', 'enum', shards={'quick': 4, 'thorough': 16}, gen=gen_print_enum),
+        Unit('print-routes', 'hyp', shards=16, examples={'quick': 25, 'thorough': 4000},
              strategy=strat_print_batch),
-        Unit('parse-repr', 'bulk', shards=16, run=run_parse_bulk),
-        Unit('parse-routes', 'hyp', shards=16, examples={'quick': 100, 'thorough': 10000},
+        Unit('parse-repr', 'bulk', shards={'quick': 8, 'thorough': 16}, run=run_parse_bulk),
+        Unit('parse-routes', 'hyp', shards=16, examples={'quick': 60, 'thorough': 10000},
              strategy=strat_parse_routes),
     ]
 
@@ -875,16 +888,31 @@ REGRESSIONS = [
     {'u': 'parse', 'text': '12345678', 'var': '#'},
     {'u': 'parse', 'text': '1 2 3.5 E 1', 'var': '!'},
     {'u': 'parse', 'text': '0.00E-3', 'var': '#'},
-    # open: zero mantissa with a positive net decimal exponent is stored as 2^-129 * 10^k
-    {'u': 'repr', 'text': '0E5', 'strict': True},
-    {'u': 'parse', 'text': '0E1', 'var': '#', 'strict': True},
-    # open: double literal whose digits do not fit 56 bits is truncated first (up to 2.4 ulp)
-    {'u': 'repr', 'text': '38.113003526267630000e30', 'strict': True},
-    # open: the same for a single literal whose digits do not fit 24 bits
-    {'u': 'repr', 'text': '928.68220', 'strict': True},
-    # open: a double that rounds up to 10^16 in the 16-digit mantissa is shown ten times too small
-    {'u': 'print', 'hex': 'fd61acc5eb782dc3', 'strict': True},
-    {'u': 'printb', 'vals': ['de4f8d976e120377'], 'strict': True},
+    # fixed 840d7c81: zero mantissa with a positive net decimal exponent is stored as 2^-129 * 10^k
+    {'u': 'repr', 'text': '0E5'},
+    {'u': 'parse', 'text': '0E1', 'var': '#'},
+    {'u': 'parse', 'text': '0D200', 'var': '#'},
+    # fixed 840d7c81: double literal whose digits do not fit 56 bits is truncated first (up to 2.4 ulp)
+    {'u': 'repr', 'text': '38.113003526267630000e30'},
+    {'u': 'parse', 'text': '521469123537020.0000', 'var': '#'},
+    # fixed 840d7c81: the same for a single literal whose digits do not fit 24 bits
+    {'u': 'repr', 'text': '928.68220'},
+    {'u': 'parse', 'text': '1677721.50000!', 'var': '!'},
+    # fixed f381997f: a double that rounds up to 10^16 in the 16-digit mantissa is shown ten times too small
+    {'u': 'print', 'hex': 'fd61acc5eb782dc3'},
+    {'u': 'printb', 'vals': ['de4f8d976e120377', 'fd61acc5eb782dc3', 'aa24cb0bffeb2f5c']},
 ]
 
-KILLS = []
+KILLS = [
+    'numbers.py Single._lim_top -> just under 1E8 -> print.sigdigits + print.unit (print-str)',
+    'numbers.py Single._lim_bot -> 9999999 -> print.int-exact + print.sigdigits + print.unit (print-str)',
+    'numbers.py str_to_decimal: digits - zeros > 7 -> > 8 -> parse.type (parse-repr, token byte in parse-routes) + parse.double.ulp (VAL in parse-routes)',
+    'numbers.py _normalise: drop the round-up -> parse.single.ulp + parse.double.ulp (parse-repr)',
+    'numbers.py _scientific_notation: exponent off by one -> print.unit (print-enum)',
+    "files.py WRITE: 'E-' -> 'E+' in the representation -> print.unit (print-routes, WRITE# only)",
+    "lister.py number token: 'D+' -> 'D-' -> print.unit (print-routes, LIST only)",
+    'interpreter.py READ: from_repr(word[:9]) -> parse.double.ulp + parse.single.ulp + parse.type (parse-routes, READ only)',
+    'SURVIVED: removing either _apply_carry_den call in to_decimal - not a violation: worst print error drops from 0.75/0.63 to 0.55/0.50 units (the carries are a GW-compatibility quirk)',
+    'SURVIVED: str_to_decimal zeros += 1 -> += 0 (trailing fraction zeros count as digits) - only changes the type where the statement is ambiguous (8+ digits through trailing zeros), both types accepted',
+    "SURVIVED: _div_den 'work_man > rman' -> '>=' - error stays < 1 ulp",
+]
